@@ -133,6 +133,12 @@ def run_c13(tier, seed):
             out.violate(f"C13:hmc-vs-reference:{kw['sampler']}:{'parallel' if kw['n_process'] > 1 else 'sequential'}:{diff[0]}",
                         f"{kw}: {diff[1]}", {"engine": "sampler-hmc-ref", "kw": kw})
     out.coverage["hmc_reference_runs"] = n_ref
+    ns = 0
+    for kind, what, rp in statless_sampler_checks():
+        ns += 1
+        if what:
+            out.violate(f"C13:{kind}", what, rp)
+    out.coverage["samplers_without_statistics"] = ns
     out.coverage["samples"] = [_sample(cfgs)]
     out.assumptions = ASSUMPTIONS
     return out
@@ -210,6 +216,36 @@ def hmc_vs_reference(*, sampler, n_process, n_warm, n_main, trace_warm_up, nchai
 
 
 # --------------------------------------------------------------------------------------
+def statless_sampler_checks():
+    """A sampler none of whose transitions reports statistics (statistic_types = None): the traces are still
+    complete and ordered, sequentially and in parallel.  Yields (signature, what | None, replay)."""
+    import warnings
+
+    from mici.samplers import MarkovChainMonteCarloMethod
+    from mici.states import ChainState
+
+    from mbv import sampler_probe as P
+
+    for n_process, force_memmap in ((1, False), (2, False), (1, True)):
+        rp = {"engine": "statless", "n_process": n_process, "force_memmap": force_memmap}
+        mode = "parallel" if n_process > 1 else "sequential"
+        try:
+            sampler = MarkovChainMonteCarloMethod(rng=np.random.default_rng(3), transitions={"t": P.BareTransition()})
+            with warnings.catch_warnings():
+                warnings.simplefilter("ignore")
+                out = sampler.sample_chains(2, 3, [ChainState(x=np.array([10.0 * c])) for c in (1, 2)], trace_funcs=[P.bare_trace],
+                                            n_process=n_process, display_progress=False, trace_warm_up=True, force_memmap=force_memmap)
+            rows = [np.asarray(a)[:, 0].tolist() for a in out.traces["x"]]
+            want = [[10.0 * c + k for k in range(1, 6)] for c in (1, 2)]
+            ok = rows == want and [float(s_.x[0]) for s_ in out.final_states] == [15.0, 25.0]
+            yield (f"{mode}:no-statistics:trace-row", None if ok else
+                   f"sampler without transition statistics ({mode}, force_memmap={force_memmap}): traces {rows}, expected {want}", rp)
+        except Exception as e:  # noqa: BLE001
+            yield (f"{mode}:exception-escapes:{type(e).__name__}:no-transition-statistics",
+                   f"sample_chains raised {type(e).__name__}: {e} for a sampler none of whose transitions has statistic_types "
+                   f"(None is documented as legal) ({mode}, force_memmap={force_memmap})", rp)
+
+
 def run_c14(tier, seed):
     out = Outcome("C14")
     cfgs = [c for c in E.gen_configs(tier, seed, with_interrupts=False) if not c.get("nproc_none")]
@@ -326,7 +362,9 @@ def run_c15(tier, seed):
             return [{"sigint": True}, {"child": True}]
         vs = [{"record": True}]
         if cfg["nproc"] == 0 and cfg["nchain"] == 2:
-            vs += [{"storage": "memmap-dir"}]
+            vs += [{"storage": "memmap-dir"}, {"storage": "memmap-dir-reused"}]
+        elif cfg["nproc"] == 2 and cfg["nchain"] == 2 and cfg["intr"]["chain"] != 0:
+            vs += [{"storage": "memmap-dir-reused"}]
         return vs
 
     _spec_and_real(out, "C15", tier, seed, cfgs, variants, f"c15_{tier}")
@@ -391,6 +429,12 @@ def run_c16(tier, seed):
         if what:
             out.violate(f"C16:{kind}", what, rp)
     out.coverage["hmc_adaptation_runs"] = n
+    nd = 0
+    for kind, what, rp in default_stager_rule():
+        nd += 1
+        if what:
+            out.violate(f"C16:{kind}", what, rp)
+    out.coverage["default_stager_layouts"] = nd
     out.coverage["samples"] = [_sample(cfgs)]
     out.assumptions = ASSUMPTIONS
     return out
@@ -571,6 +615,95 @@ def stager_unbounded(tier):
             raise MachineryError(f"StagerInd.tla: inductive argument fails for multiplier {mn}/{md}: {bad}")
     return {"stager_unbounded_multipliers": [f"{a}/{b}" for a, b in mults],
             "stager_unbounded_obligations": sum(len(r) for _, r in results)}
+
+
+def default_stager_rule():
+    """sample_chains without an explicit stager, adapters on several transitions: the documented default is the
+    single-stage warm-up stager if there are no adapters or ALL adapters (of all transitions) are fast, else the
+    windowed stager -- so slow adapters are active only in the growing slow windows and fast adapters in all warm-up
+    stages, and nothing adapts in the main stage.  Observed through recording adapters (which iterations each
+    adapter was updated in).  Yields (signature, what | None, replay)."""
+    import warnings
+
+    from mici.adapters import Adapter
+    from mici.samplers import MarkovChainMonteCarloMethod
+    from mici.stagers import WindowedWarmUpStager
+    from mici.states import ChainState
+    from mici.transitions import Transition
+
+    class Count(Transition):
+        state_variables = {"x"}
+        statistic_types = {"k": (np.int64, -1)}
+
+        def sample(self, state, rng):
+            state.x = state.x + 1.0
+            return state, {"k": int(state.x[0])}
+
+    class Noop(Count):
+        statistic_types = None
+
+        def sample(self, state, rng):
+            return state, None
+
+    class Rec(Adapter):
+        def __init__(self, fast):
+            self._fast, self.seen = fast, []
+
+        is_fast = property(lambda self: self._fast)
+
+        def initialize(self, chain_state, transition):
+            return {"n": 0}
+
+        def update(self, adapt_state, chain_state, trans_stats, transition):
+            self.seen.append(int(chain_state.x[0]))
+
+        def finalize(self, adapt_states, chain_states, transition, rngs):
+            pass
+
+    n_warm, n_main = 200, 4
+    ref = WindowedWarmUpStager().stages(n_warm, n_main, {"t": [Rec(True), Rec(False)]}, [])
+    bounds, k = [], 0
+    for label, st in ref.items():
+        bounds.append((label, k + 1, k + st.n_iter))
+        k += st.n_iter
+    slow_iters = {i for label, a, b in bounds if label.startswith("Slow") for i in range(a, b + 1)}
+    warm_iters = set(range(1, n_warm + 1))
+    layouts = {"fast|fast+slow": {"t1": [True], "t2": [True, False]}, "none|slow": {"t1": [], "t2": [False]},
+               "fast|fast": {"t1": [True], "t2": [True]}, "slow": {"t2": [False]}, "fast+slow|fast": {"t1": [True, False], "t2": [True]}}
+    for name, lay in layouts.items():
+        ads = {k_: [Rec(f) for f in fl] for k_, fl in lay.items()}
+        sampler = MarkovChainMonteCarloMethod(rng=np.random.default_rng(1), transitions={"t1": Count(), "t2": Noop()})
+        rp = {"engine": "default-stager", "layout": name}
+        try:
+            with warnings.catch_warnings():
+                warnings.simplefilter("ignore")
+                sampler.sample_chains(n_warm, n_main, [ChainState(x=np.zeros(1))], adapters=ads, n_process=1,
+                                      trace_funcs=[lambda s: {"x": s.x}], display_progress=False)
+        except Exception as e:  # noqa: BLE001
+            yield (f"default-stager:{name}:exception:{type(e).__name__}", f"sample_chains with adapters {lay} and no stager raised {e!r}", rp)
+            continue
+        any_slow = any(not f for fl in lay.values() for f in fl)
+        bad = None
+        for key, lst in ads.items():
+            for a in lst:
+                got = set(a.seen)
+                want = warm_iters if (a.is_fast or not any_slow) else slow_iters
+                if got != want:
+                    bad = (f"{'fast' if a.is_fast else 'slow'} adapter of transition {key} was updated in iterations "
+                           f"{_ranges(got)}; by the documented default stager ({'windowed' if any_slow else 'single warm-up stage'}) it is active in {_ranges(want)}")
+        yield (f"default-stager:{name}", None if bad is None else f"adapters {lay}, stager=None, {n_warm} warm-up + {n_main} main iterations: {bad}", rp)
+
+
+def _ranges(s):
+    s = sorted(s)
+    out, i = [], 0
+    while i < len(s):
+        j = i
+        while j + 1 < len(s) and s[j + 1] == s[j] + 1:
+            j += 1
+        out.append(f"{s[i]}-{s[j]}" if j > i else f"{s[i]}")
+        i = j + 1
+    return ",".join(out) or "none"
 
 
 def hmc_adaptation_checks(tier):
